@@ -212,6 +212,15 @@ func (t *tr2) assign(lhs ast.Expr, val string, bs *[]bind) {
 		*bs = append(*bs, bind{let: true, pat: ident(x.Name), rhs: val})
 	case *ast.IndexExpr:
 		bt := t.info.TypeOf(x.X)
+		if isBoolList(bt) && isSlice(bt) {
+			t.checkWritable(x.X)
+			base := t.expr(x.X, bs)
+			idx := t.expr(x.Index, bs)
+			tmp := t.freshTmp()
+			*bs = append(*bs, bind{pat: tmp, rhs: "(go_set_g " + base + " " + idx + " " + val + ")"})
+			t.assign(x.X, tmp, bs)
+			return
+		}
 		if !isBytes(bt) {
 			t.fail(x, "element assignment on unsupported type %s", bt)
 			return
